@@ -171,33 +171,47 @@ def cgEager (c : Cfg K) (ip : V → V → K) (mat : V → V) (j : V) (x0 : Optio
   if s.gamma = 0 then .ok ⟨s.pos, 0, 0, .startZero, s.r, s.gamma, 0⟩
   else eagerLoop c ip mat j (maxiterEff c) 1 s
 
+/-- first `info` update of `cg_single_step`: `info = where(curv <= 0, where(_raise_nonposdef, -1, 0), info)` -/
+def staticInfo1 (raise nonpos : Bool) (info : Int) : Int :=
+  if nonpos then (if raise then -1 else 0) else info
+
+/-- the remaining `info = jnp.where(...)` updates of `cg_single_step`, in program order, as a function of the
+    boolean conditions computed from the numerical state (`tinyB`: `gamma >= 0 & gamma <= tiny`,
+    `resAct`: `resnorm is not None`, `normB`: `norm < resnorm`, `eiB`: `energy_diff < neg_energy_eps`,
+    `adB`: `absdelta is not None` and `energy_diff < absdelta`) -/
+def staticInfo (raise : Bool) (i miniter maxiter : Nat) (info1 : Int) (tinyB resAct normB eiB adB : Bool) : Int :=
+  -- info = where((gamma >= 0) & (gamma <= tiny) & (info != -1), 0, info)
+  let info2 : Int := if tinyB && info1 != -1 then 0 else info1
+  -- if resnorm is not None: info = where((norm < resnorm) & (i >= miniter) & (info != -1), 0, info)
+  let info3 : Int := if resAct then (if normB && decide (miniter ≤ i) && info2 != -1 then 0 else info2) else info2
+  -- info = where((energy_diff < neg_energy_eps) & (info < -1), where(_raise_nonposdef, -1, i), info)   [repaired mask]
+  let info4 : Int := if eiB && decide (info3 < -1) then (if raise then -1 else (i : Int)) else info3
+  -- if absdelta is not None: info = where((energy_diff < absdelta) & (i >= miniter) & (info < -1), 0, info)  [repaired]
+  let info5 : Int := if adB && decide (miniter ≤ i) && decide (info4 < -1) then 0 else info4
+  -- info = where((i >= maxiter) & (info < -1), i, info)                                                  [repaired]
+  if decide (maxiter ≤ i) && decide (info5 < -1) then (i : Int) else info5
+
 /-- `cg_single_step` of `_static_cg` -/
 def staticStep (c : Cfg K) (ip : V → V → K) (mat : V → V) (j : V) (v : SSt K V) : SSt K V :=
   let i := v.it + 1
   let q := mat v.d
   let curv := ip v.d q
   let alpha0 := v.gamma / curv
-  let info1 : Int := if curv ≤ 0 then (if c.raiseNPD then -1 else 0) else v.info
-  let alpha : K := if curv ≤ 0 ∧ c.raiseNPD = false then 0 else alpha0
+  let nonpos : Bool := decide (curv ≤ 0)
+  let info1 : Int := staticInfo1 c.raiseNPD nonpos v.info
+  let alpha : K := if nonpos && !c.raiseNPD then 0 else alpha0
   let pos1 := v.pos - alpha • v.d
-  let pos := if curv < 0 ∧ c.raiseNPD = false ∧ i ≤ 1 then pos1 - (v.gamma / (-curv)) • v.d else pos1
-  let r := if i % c.nreset = 0 ∧ info1 < -1 then mat pos - j else v.r - alpha • q
+  let pos := if decide (curv < 0) && !c.raiseNPD && decide (i ≤ 1) then pos1 - (v.gamma / (-curv)) • v.d else pos1
+  let r := if decide (i % c.nreset = 0) && decide (info1 < -1) then mat pos - j else v.r - alpha • q
   let gamma := ip r r
-  let info2 : Int := if 0 ≤ gamma ∧ gamma ≤ c.tiny ∧ info1 ≠ -1 then 0 else info1
-  let info3 : Int :=
-    if resActive c = true then
-      (if normLt c (ip j j) gamma = true ∧ miniterEff c ≤ i ∧ info2 ≠ -1 then 0 else info2)
-    else info2
   let energy := energyOf ip j r pos
   let ediff := v.energy - energy
-  let info4 : Int :=
-    if ediff < -(c.eps * absK energy) ∧ info3 < -1 then (if c.raiseNPD then -1 else (i : Int)) else info3
-  let info5 : Int :=
-    if (match c.absdelta with | some a => decide (ediff < a) | none => false) = true
-       ∧ miniterEff c ≤ i ∧ info4 < -1 then 0 else info4
-  let info6 : Int := if maxiterEff c ≤ i ∧ info5 < -1 then (i : Int) else info5
+  let info := staticInfo c.raiseNPD i (miniterEff c) (maxiterEff c) info1
+    (decide (0 ≤ gamma) && decide (gamma ≤ c.tiny)) (resActive c) (normLt c (ip j j) gamma)
+    (decide (ediff < -(c.eps * absK energy)))
+    (match c.absdelta with | some a => decide (ediff < a) | none => false)
   let d := max0 (gamma / v.gamma) • v.d + r
-  { info := info6, pos := pos, r := r, d := d, it := i, gamma := gamma, energy := energy }
+  { info := info, pos := pos, r := r, d := d, it := i, gamma := gamma, energy := energy }
 
 /-- `while_loop(continue_condition, cg_single_step, val)` with `continue_condition = info < -1` -/
 def staticLoop (c : Cfg K) (ip : V → V → K) (mat : V → V) (j : V) : Nat → SSt K V → SSt K V
